@@ -526,6 +526,71 @@ theorem unset_after_dependants_one_scope (g : Graph) {ncls : Nat} (hW : WellForm
   unfold involved at hv
   exact List.mem_range.mp (List.mem_filter.mp hv).1
 
+/-- **No dependant is being executed when a state is removed** (pre-parsed graphs, one scope, the default reuse shape).
+A worker that executes a dependant of its copy of `p` has traversed that copy, so its `finished` mark is on it, so — by
+`is_finished(worker, -1)`, the last test of the clean decision — it is involved, and `unset_after_dependants` applies to
+it.  Hence: whenever a step of `w` emits an `unset` request for states of `p`, NO other worker awaits a test on a node one
+of whose parents is that worker's copy of `p` (`w` itself is inside this step, not inside a test).  This is what is
+guaranteed about workers that have not picked `p` (hypothesis (b)) on a pre-parsed graph: they are not executing a
+dependant; on a lazily expanded graph they may start one AFTERWARDS (`lazy_unpicked_dependant_starts_after_unset`). -/
+theorem unset_no_dependant_in_flight (g : Graph) {ncls : Nat} (hW : WellFormed g ncls) (hS : OneScope g) (hG : GlobalShape g)
+    {store : Store} {s : State} (hr : ReachC g ncls store s) (w : Nat) (hw : w < g.workers.length) (out : Outcome)
+    (fuel : Nat) (wid : String) (reqs : List (String × String)) (sc : List String) (ok : Bool)
+    (he : Event.door wid "unset" reqs sc ok ∈ (resume g s w out fuel).2) :
+    ∃ p, p < g.nodes.length ∧
+      (reqs ≠ [] ∧ ∀ vs ∈ reqs, vs ∈ (g.node p).sets ∧ (unsetModeOf (g.node p) vs.1).toList.head? = some 'f') ∧
+      ∀ u, u ≠ w → ∀ c ph dir uid tag wait, (s.wd u).pc = .test c ph dir uid tag wait →
+        ∀ m ∈ (g.node c).setup.map (·.1), (g.node m).cls = (g.node p).cls → relevant g u m = true → False := by
+  obtain ⟨_, _, _, hid, sd, p, _, h2, h3, hp, _, f1, f2, f3, f4⟩ :=
+    unset_request_provenance g hW hr.reachH w out fuel wid reqs sc ok he
+  have hnil : hid = [] := by
+    cases hid with
+    | nil => rfl
+    | cons a r => exact absurd (h2 a List.mem_cons_self) (by simp)
+  subst hnil
+  have H := hW.hyp
+  have ci := hr.cinv H hW.2.2.2.2.2.2.1
+  have hO := ownerNamesB_sound hW.2.1
+  have hF := hW.2.2.1
+  have t := hr.reachH.trv (GraphWF.of_bool hW.1) hW.2.2.2.2.2.1.1 hO.uniq
+  refine ⟨p, hp, f2, fun u hu c ph dir uid tag wait hpc m hm hmc hmrel => ?_⟩
+  -- `c` was setup-ready for `u` when the test was started: `u` has dropped its copy `m` of `p` as a parent of `c`
+  obtain ⟨hcl, hidu, hcf, hid', _, hb, hready⟩ := t.pc u c ph dir uid tag wait hpc
+  have hnil' : hid' = [] := by
+    cases hid' with
+    | nil => rfl
+    | cons a r => exact absurd (hb a List.mem_cons_self) (by simp)
+  subst hnil'
+  obtain ⟨q, hq, hqm⟩ := List.mem_map.mp hm
+  have hml : m < g.nodes.length := by rw [← hqm]; exact H.wf.setup_lt c q hq
+  have hds := (setup_ready_iff' g s c u).mp hready q hq (by rw [hqm]; exact hmrel)
+  rw [hqm] at hds
+  -- … so `u`'s `finished` mark is on `m`, in `s` and still in `sd`
+  obtain ⟨p', b1, b2, b3, b4⟩ := t.dropS _ _ u hds
+  have hp'm : p' = m := H.uniq u p' m b1 hml b2 b3 hmrel
+  rw [hp'm] at b4
+  have hmf : (g.node m).flat = false := by rw [hF m hml p hp hmc]; exact f1.1
+  have hfin_s : (s.nd m).finished = some u := b4 hmf
+  have hfin_sd : (sd.nd m).finished = some u := by
+    rcases h3.fin m with h | ⟨_, hr', _⟩
+    · rw [h]; exact hfin_s
+    · exact absurd (hO.uniq m hml hmf u w (relevant_nonflat hmrel hmf) (relevant_nonflat hr' hmf)) hu
+  -- … hence `u` is involved, and the run-level statement applies to it
+  have hinv := involved_of_finished g sd p w m u hp f1.1 (hG p hp) f3 hml hmc hfin_sd
+  have hul : u < g.workers.length := by
+    unfold involved at hinv
+    exact List.mem_range.mp (List.mem_filter.mp hinv).1
+  obtain ⟨m', hm', _, hch⟩ := f4 u hinv (hS w hw u hul)
+  obtain ⟨k1, k2, k3⟩ := pickedOf_spec g p u m' hp f1.1 hm'
+  have hmm : m' = m := H.uniq u m' m k1 hml (k2.trans hmc.symm) (relevant_of_idIn k3) hmrel
+  subst hmm
+  have hcm : c ∈ (g.node m').cleanup.map (·.1) := (H.sym m' hml c hcl).mp hm
+  obtain ⟨q', hq', hq'c⟩ := List.mem_map.mp hcm
+  have hrc : relevant g u q'.1 = true := by rw [hq'c]; exact relevant_of_idIn hidu
+  obtain ⟨hd, _⟩ := hch q' hq' hrc
+  rw [hq'c] at hd
+  exact not_in_flight_of_dropped ci t hO h3 hcf (relevant_of_idIn hidu) hd u hu ph dir uid tag wait hpc
+
 /-- The statement that covers lazy expansion (any initial hidden set) is PARTIAL: everything of `unset_after_dependants`
 but the absence of executions in flight, and the dependants are those visible when the decision is taken.  Missing: on a
 lazily expanded graph a node a worker has dropped can get a NEW dependant when the worker expands another flat test for
@@ -555,7 +620,7 @@ theorem unset_after_dependants_lazy_partial (g : Graph) {ncls : Nat} (hW : WellF
 
 /-! ### non-vacuity and the witnesses of the two hypotheses -/
 
-example : WellFormed exGraph 3 ∧ OneScope exGraph := by decide
+example : WellFormed exGraph 3 ∧ OneScope exGraph ∧ GlobalShape exGraph := by decide
 example : ReachC exGraph 3 [] exS2 :=
   reachC_runSched exGraph 3 [] 100 (by decide) _ (by decide) _ ReachC.init
 
